@@ -29,6 +29,21 @@ Theorem C23_root_sibling_never_opened : forall c reqPath host sfx s t,
 Proof. exact root_sibling_never_opened. Qed.
 Print Assumptions C23_root_sibling_never_opened.
 
+(* The join step is explicit: a working path without a leading slash (prefix stripper cutting inside a segment)
+   is joined to Root WITH a '/' — "inside" is Root itself or Root ++ "/" ++ rel, not "has Root as a string prefix". *)
+Theorem C23_join_inserts_slash : forall c path,
+  osfs c = true -> root c <> [] -> path <> [] ->
+  match path with ch :: _ => ch <> SLASH | [] => True end ->
+  match rev path with ch :: _ => ch =? SLASH | [] => false end = false ->
+  pathToFilePath c path false = root c ++ SLASH :: path.
+Proof. exact join_inserts_slash. Qed.
+Print Assumptions C23_join_inserts_slash.
+
+(* a name that merely extends Root as a string (sibling "Root-private/secret.txt", "Root.bak/f", "Rootx") is outside *)
+Theorem C23_sibling_is_outside : forall r s, s <> [] -> relname_hd s -> ~ inside r (r ++ s).
+Proof. exact sibling_not_inside. Qed.
+Print Assumptions C23_sibling_is_outside.
+
 (* FS over an io/fs.FS: every name handed to the fs.FS is relative and has no ".." segment (no guard needed:
    Root ++ suffix is still a name inside the fs.FS). *)
 Theorem C23_opened_names_inside_fs : forall c reqPath host sfx p,
@@ -79,6 +94,15 @@ Example C23_ex_traversal :
   handle (ex_cfg RNone) (s2b "/a/%2e%2e/%2e%2e/etc/passwd") (s2b "h") = Serve (s2b "/etc/passwd") (s2b "/srv/www/etc/passwd") false.
 Proof. vm_compute. reflexivity. Qed.
 Example C23_ex_prefix_dotdot : handle (ex_cfg (RPrefix 2)) (s2b "/a../etc/passwd") (s2b "h") = Reject500.
+Proof. vm_compute. reflexivity. Qed.
+Example C23_ex_prefix_mid_segment :
+  handle (ex_cfg (RPrefix 7)) (s2b "/static-private/secret.txt") (s2b "h")
+  = Serve (s2b "-private/secret.txt") (s2b "/srv/www/-private/secret.txt") false
+  /\ insideb (s2b "/srv/www") (s2b "/srv/www/-private/secret.txt") = true
+  /\ insideb (s2b "/srv/www") (s2b "/srv/www-private/secret.txt") = false
+  /\ insideb (s2b "/srv/www") (s2b "/srv/www.bak/f.txt") = false /\ insideb (s2b "/srv/www") (s2b "/srv/wwwx") = false.
+Proof. vm_compute. repeat split. Qed.
+Example C23_ex_slashes_to_empty : handle (ex_cfg (RSlashes 2)) (s2b "/a") (s2b "h") = Serve [] (s2b "/srv/www") false.
 Proof. vm_compute. reflexivity. Qed.
 Example C23_ex_nul : handle (ex_cfg RNone) (s2b "/a/%00/b") (s2b "h") = Reject400.
 Proof. vm_compute. reflexivity. Qed.
